@@ -60,7 +60,9 @@ NewEp(tp, l1m) ==
    cnt |-> ZeroCnt, cond |-> 0, mask |-> 0, bell |-> FALSE,
    \* btls only (L1 "logged"): what the last SSL_read / SSL_write left behind (ssl_condition, ssl_wants), and
    \* whether the readiness of this endpoint can be predicted yet (SSL_has_pending has been observed)
-   sc |-> 0, sw |-> 0, rk |-> FALSE]
+   sc |-> 0, sw |-> 0, rk |-> FALSE,
+   \* ... which needs the awaited condition (ck) and the SSL state (sk) to be known: both are lost in a blocking-mode call
+   ck |-> TRUE, sk |-> TRUE]
 
 (***************************************************************************)
 (* L1 = btcp underneath a framing layer.                                   *)
